@@ -535,6 +535,7 @@ func checkC10(c *Ctx) {
 			}
 		}
 	}
+	checkC10TailReadable(c)
 }
 
 // reachesBefore: a is executed on some path before b (weaker than dominance; used with dependence checks).
